@@ -11,7 +11,8 @@ Texts == {"ascii", "multibyte"}
 
 VARIABLE c
 Init == c \in [format : Formats, target : Targets, counters : Counters, filehash : BOOLEAN, pretty : BOOLEAN,
-               incoming : Incoming, shape : Shapes, text : Texts]
+               incoming : Incoming, shape : Shapes, text : Texts,
+               drops : BOOLEAN]      \* the dumper's own validator (on_error = drop) discards one row per non-empty resource
 Next == UNCHANGED c
 Spec == Init /\ [][Next]_c
 Export == PrintT(<<"CASE", ToJson(c)>>)
